@@ -157,3 +157,23 @@ package bcl
 //@ func isFalsey
 //@   ensures falsey_set: result == falsey(v)
 //@   modifies nothing
+
+// value.go predicates: specified against the Val constructors (pure)
+//@ group C01,C06
+//@ func isInt
+//@   ensures result == is_int(v)
+//@   modifies nothing
+//@ func isFloat
+//@   ensures result == is_float(v)
+//@   modifies nothing
+//@ func isNumber
+//@   ensures result == (is_int(v) || is_float(v))
+//@   modifies nothing
+//@ func isString
+//@   ensures result == is_str(v)
+//@   modifies nothing
+//@ func isBool
+//@   ensures result == is_bool(v)
+//@   modifies nothing
+//@ func vtype
+//@   modifies nothing
